@@ -79,7 +79,12 @@ func consUnits(thorough bool) []*unit {
 				add(&unit{State: st, Peer: pm, Kind: "single", Msg: name, Est: 400, gen: func(w *worker, u *unit, emit func(*caseT)) {
 					s := seedByName(w.cons.seedsFor(st), name)
 					base := caseT{Reactor: "consensus", State: st, Peer: pm, Msg: name}
-					// the valid message on every channel id (and once from a removed peer)
+					// the valid message: round trip, then on every channel id (and once from a removed peer)
+					{
+						c := base
+						c.Kind, c.Field, c.Class, c.Desc, c.Ch, c.raw = "roundtrip", "-", "valid", "encode/decode round trip", s.Home, s.Bytes
+						emit(&c)
+					}
 					for _, ch := range consChans {
 						c := base
 						c.Kind, c.Field, c.Class, c.Desc, c.Ch, c.raw = "valid", "-", "valid", "unmodified", ch, s.Bytes
@@ -93,14 +98,14 @@ func consUnits(thorough bool) []*unit {
 					}
 					for _, site := range s.Sites {
 						for _, m := range mutationsFor(site, s.Root, false) {
-							raw := encodeNodes(applyAt(s.Root, site, m))
+							raw, mf, mc := mutate(s.Root, site, m)
 							chans := []byte{s.Home}
 							if foreign {
 								chans = consChans
 							}
 							for _, ch := range chans {
 								c := base
-								c.Kind, c.Field, c.Class, c.Desc, c.Ch, c.raw = "single", stripIdx(site.Name), m.Class, m.Desc, ch, raw
+								c.Kind, c.Field, c.Class, c.Desc, c.Ch, c.raw = "single", mf, mc, m.Desc, ch, raw
 								emit(&c)
 							}
 						}
@@ -114,9 +119,36 @@ func consUnits(thorough bool) []*unit {
 					s := seedByName(w.cons.seedsFor(st), "VoteSetMaj23")
 					for _, site := range s.Sites {
 						for _, m := range mutationsFor(site, s.Root, true) {
-							raw := encodeNodes(applyAt(s.Root, site, m))
-							emit(&caseT{Reactor: "consensus", State: st, Peer: pm, Msg: "VoteSetMaj23", Kind: "second-claim", Field: stripIdx(site.Name), Class: m.Class + "(after a valid claim)",
+							raw, mf, mc := mutate(s.Root, site, m)
+							emit(&caseT{Reactor: "consensus", State: st, Peer: pm, Msg: "VoteSetMaj23", Kind: "second-claim", Field: mf, Class: mc + "(after a valid claim)",
 								Desc: m.Desc + ", after a valid VoteSetMaj23 from the same peer", Ch: s.Home, raw: raw, pre: [][]byte{s.Bytes}, preCh: []byte{s.Home}})
+						}
+					}
+				}})
+			}
+			if pm == peerFresh {
+				st := st
+				// a peer that announced the next round and a proposal with a proof-of-lock round, then sends its
+				// proof-of-lock bit array: the array is kept and used by the vote gossip routine
+				add(&unit{State: st, Peer: peerFresh, Kind: "pol-sequence", Msg: "ProposalPOL", Est: 300, gen: func(w *worker, u *unit, emit func(*caseT)) {
+					c := w.cons.node(st)
+					nrs := &consensus.NewRoundStepMessage{Height: c.Height, Round: c.Round + 1, Step: 3, SecondsSinceStartTime: 1}
+					if c.Height > 1 {
+						nrs.LastCommitRound = c.PrevRound
+					}
+					prop := types.NewProposal(c.Height, c.Round+1, c.Round, c.BlockID)
+					prop.Timestamp = voteTime(c.Height, c.Round+1, kproto.ProposalType, 0)
+					prop.Signature = patternBytes(65, 0x31)
+					pre := [][]byte{consensus.MustEncode(nrs), consensus.MustEncode(&consensus.ProposalMessage{Proposal: prop})}
+					s := mkSeed("ProposalPOL", chData, &consensus.ProposalPOLMessage{Height: c.Height, ProposalPOLRound: c.Round, ProposalPOL: bitArray(nVals, 0, 2)})
+					emit(&caseT{Reactor: "consensus", State: st, Peer: peerFresh, Msg: "ProposalPOL", Kind: "pol-sequence", Field: "-", Class: "valid(after NewRoundStep+Proposal)",
+						Desc: "unmodified, after NewRoundStep(round+1) and Proposal(pol_round=round)", Ch: chData, raw: s.Bytes, pre: pre, preCh: []byte{chState, chData}})
+					for _, site := range s.Sites {
+						for _, m := range mutationsFor(site, s.Root, false) {
+							raw, mf, mc := mutate(s.Root, site, m)
+							emit(&caseT{Reactor: "consensus", State: st, Peer: peerFresh, Msg: "ProposalPOL", Kind: "pol-sequence", Field: mf,
+								Class: mc + "(after NewRoundStep+Proposal)", Desc: m.Desc + ", after NewRoundStep(round+1) and Proposal(pol_round=round)", Ch: chData,
+								raw: raw, pre: pre, preCh: []byte{chState, chData}})
 						}
 					}
 				}})
@@ -231,12 +263,12 @@ func consUnits(thorough bool) []*unit {
 							continue
 						}
 						for _, m := range mutationsFor(site, s.Root, false) {
-							raw := encodeNodes(applyAt(s.Root, site, m))
+							raw, mf, mc := mutate(s.Root, site, m)
 							signed := resign(raw, proposer, o0)
 							if signed == nil {
 								continue
 							}
-							emit(&caseT{Reactor: "consensus", State: st, Peer: pm, Msg: name, Kind: "resigned", Field: stripIdx(site.Name), Class: m.Class + "(signed)",
+							emit(&caseT{Reactor: "consensus", State: st, Peer: pm, Msg: name, Kind: "resigned", Field: mf, Class: mc + "(signed)",
 								Desc: m.Desc + ", then signed by the validator", Ch: s.Home, raw: signed})
 						}
 					}
